@@ -271,4 +271,15 @@ theorem bds60_readers_as_modelled :
 example : decide (Gen.BdsFns.Bds50.read_roll true 0 4 = Rs1090.Proofs.GenBds.scaled 45 128 (Model.Bds50.roll true 0 4)) = false := by
   decide +kernel
 
+
+open Rs1090.Proofs.GenBds in
+theorem bds40_readers_as_modelled :
+    (∀ s v, v < 2 ^ 12 → selectedOk s v = true) ∧ (∀ s v, v < 2 ^ 12 → qnhOk s v = true) :=
+  ⟨bds40_selected, bds40_qnh⟩
+
+open Rs1090.Proofs.GenBds in
+theorem bds44_readers_as_modelled :
+    (∀ s v, v < 2 ^ 11 → pressure44Ok s v = true) ∧ (∀ s v, v < 2 ^ 6 → humidityOk s v = true) :=
+  ⟨bds44_pressure, bds44_humidity⟩
+
 end Rs1090.Props.C01
